@@ -407,15 +407,21 @@ def c08_idle(spec, obs, sc=0, cal=None):
             par = rs[pshort][2]
         return False
 
-    def slot_free(rids, s):
+    def slot_free(rids, s, partial=False):
+        """every allocated resource works the whole slot and the slot is unbooked. With partial=True (forward tasks
+        only: 'an ASAP task never waits while its resource could work for it') a slot that still has >= 1 s free
+        counts too: forward slots fill from the left, so the free part is the tail of the slot, and bookings only
+        ever shrink when their owner finishes, so time free in the final ledger was free when the task passed."""
         for rid in rids:
             if not cal.whole_slot_working(rid, s):
                 return False
             lst = led.get(short2full[rid], {}).get(s, [])
-            if sum(q for _t, q in lst) > EPS:
+            taken = max(sum(q for _t, q in lst), obs["used"].get(sc, {}).get(short2full[rid], {}).get(s, 0.0))
+            if partial:
+                if L - taken < 1.0:
+                    return False
+            elif taken > EPS:
                 return False
-            if obs["used"].get(sc, {}).get(short2full[rid], {}).get(s, 0.0) > EPS:
-                return False  # marked (e.g. dependency offset): not claimable idle time
         return True
 
     def sidx(t):
@@ -468,7 +474,7 @@ def c08_idle(spec, obs, sc=0, cal=None):
             for s in range(first, last):
                 if s in slots:
                     continue
-                if slot_free(alloc, s):
+                if slot_free(alloc, s, partial=True):
                     v.append(("idle-asap", f"{fid} (bound {bound}, last work in slot {slot_start(obs, last)}) left slot "
                                            f"{slot_start(obs, s)} of {alloc} working and unbooked"))
                     break
